@@ -175,3 +175,86 @@ M("C19", "lm: fill pass rounds differently", LM, """        int32 k = (int32)(lo
 M("C19", "lm: table_size off by one", LM, "    lmath->t.table_size = i + 1;", "    lmath->t.table_size = i + 2;", "TABLE.width")
 M("C19", "lm: width threshold 3 bytes", LM, "    else if (maxyx < 65536)\n        width = 2;", "    else if (maxyx < 65536)\n        width = 3;", "TABLE.width")
 M("C19", "lm benign: swap operands", LM, "        return r + (((uint8 *)t->table)[d]);", "        return (((uint8 *)t->table)[d]) + r;", kind="benign")
+
+FS = "src/fsg_search.c"
+FH = "src/fsg_history.c"
+# ---- C01 ----------------------------------------------------------------------
+M("C01", "null_prop: from_state for to_state", FS, """        s = l ? fsg_link_to_state(l) : fsg_model_start_state(fsg);""", """        s = l ? fsg_link_from_state(l) : fsg_model_start_state(fsg);""", "PROV.O1-null-prop")
+M("C01", "null_prop: pred is grandparent", FS, """                                      bpidx,
+                                      fsg_hist_entry_lc(hist_entry),""", """                                      fsg_hist_entry_pred(hist_entry),
+                                      fsg_hist_entry_lc(hist_entry),""", "PROV.O1-null-prop")
+M("C01", "null_prop: word arcs propagate", FS, """            if (fsg_link_wid(l) != -1)
+                continue;""", """            if (fsg_link_wid(l) == -2)
+                continue;""", "PROV.O1-null-prop")
+M("C01", "word_trans: roots of from_state", FS, """        d = l ? fsg_link_to_state(l) : fsg_model_start_state(fsgs->fsg);""", """        d = l ? fsg_link_from_state(l) : fsg_model_start_state(fsgs->fsg);""", "PROV.O2-word-trans")
+M("C01", "word_trans: history off by one", FS, "hmm_enter(&root->hmm, newscore, bpidx, nf);", "hmm_enter(&root->hmm, newscore, bpidx - 1, nf);", "PROV.O2-word-trans")
+M("C01", "word_trans: rc test dropped", FS, "if ((root->ctxt.bv[lc >> 5] & (1 << (lc & 0x001f))) && (hist_entry->rc.bv[rc >> 5] & (1 << (rc & 0x001f)))) {", "if ((root->ctxt.bv[lc >> 5] & (1 << (lc & 0x001f)))) {", "PROV.O2-word-trans")
+M("C01", "pnode_trans: in_history passed", FS, "hmm_enter(&child->hmm, newscore, hmm_out_history(hmm), nf);", "hmm_enter(&child->hmm, newscore, hmm_in_history(hmm), nf);", "PROV.O3-pnode-trans")
+M("C01", "pnode_trans: siblings of pnode entered", FS, """    for (child = fsg_pnode_succ(pnode);
+         child; child = fsg_pnode_sibling(child)) {""", """    for (child = fsg_pnode_sibling(pnode);
+         child; child = fsg_pnode_sibling(child)) {""", "PROV.O3-pnode-trans")
+M("C01", "find_exit: final test dropped", FS, """            if ((!final)
+                || fsg_link_to_state(fl) == fsg_model_final_state(fsg)) {
+                bestscore = score;
+                besthist = bpidx;
+            }""", """            {
+                bestscore = score;
+                besthist = bpidx;
+            }""", "GUARD.O7-final-state")
+M("C01", "find_exit: start_state for final_state", FS, """                || fsg_link_to_state(fl) == fsg_model_final_state(fsg)) {""", """                || fsg_link_to_state(fl) == fsg_model_start_state(fsg)) {""", "GUARD.O7-final-state")
+M("C01", "find_exit: tie branch ignores final", FS, """        if (score == bestscore && fsg_link_to_state(fl) == fsg_model_final_state(fsg)) {""", """        if (score == bestscore) {""", "GUARD.O7-final-state")
+M("C01", "find_exit: no-exit returns 0-th", FS, """    if (besthist == -1) {
+        E_ERROR("Final result does not match the grammar in frame %d\\n", frame_idx);
+        return -1;
+    }""", """    if (besthist == -1) {
+        E_ERROR("Final result does not match the grammar in frame %d\\n", frame_idx);
+        return fsg_history_n_entries(fsgs->history) - 1;
+    }""", "GUARD.O7-final-state")
+M("C01", "hyp: fill pass walks bp-1", FS, """        bp = fsg_hist_entry_pred(hist_entry);
+        wid = fsg_link_wid(fl);
+        if (wid < 0 || fsg_model_is_filler(fsgs->fsg, wid))
+            continue;
+        baseword = dict_basestr(dict,
+                                dict_wordid(dict,
+                                            fsg_model_word_str(fsgs->fsg, wid)));
+        len = strlen(baseword);""", """        bp = bp - 1;
+        wid = fsg_link_wid(fl);
+        if (wid < 0 || fsg_model_is_filler(fsgs->fsg, wid))
+            continue;
+        baseword = dict_basestr(dict,
+                                dict_wordid(dict,
+                                            fsg_model_word_str(fsgs->fsg, wid)));
+        len = strlen(baseword);""", "PROV.O8-backtrace")
+M("C01", "history: pred stored wrong", FH, """    new_entry->pred = pred;
+    new_entry->lc = lc;
+    new_entry->rc = rc; /* Note""", """    new_entry->pred = pred > 0 ? pred - 1 : pred;
+    new_entry->lc = lc;
+    new_entry->rc = rc; /* Note""", "PROV.O9-entry-fields")
+M("C01", "finish: final stays false", FS, "    fsgs->final = TRUE;", "    fsgs->final = FALSE;", "PROV.O11-final-flag")
+M("C01", "step: word_trans before null_prop", FS, """    fsg_search_null_prop(fsgs);
+    fsg_history_end_frame(fsgs->history);
+
+    /*
+     * Perform cross-word transitions; propagate each history entry across its
+     * terminating state to the root nodes of the lextree attached to the state.
+     */
+    fsg_search_word_trans(fsgs);""", """    fsg_search_word_trans(fsgs);
+    fsg_search_null_prop(fsgs);
+    fsg_history_end_frame(fsgs->history);
+""", "PROV.root-entry")
+M("C01", "exit: history of wrong node", FS, """                              hmm_out_score(hmm),
+                              hmm_out_history(hmm),
+                              pnode->ci_ext, pnode->ctxt);""", """                              hmm_out_score(hmm),
+                              hmm_in_history(hmm),
+                              pnode->ci_ext, pnode->ctxt);""", "PROV.O4-word-exit")
+M("C01", "benign: rename temp in word_trans", FS, """        d = l ? fsg_link_to_state(l) : fsg_model_start_state(fsgs->fsg);
+
+        lc = fsg_hist_entry_lc(hist_entry);
+
+        /* Transition to all root nodes attached to state d */
+        for (root = fsg_lextree_root(fsgs->lextree, d);""", """        lc = fsg_hist_entry_lc(hist_entry);
+
+        /* Transition to all root nodes attached to state d */
+        for (root = fsg_lextree_root(fsgs->lextree, (l ? fsg_link_to_state(l) : fsg_model_start_state(fsgs->fsg)));""", kind="benign")
+M("C01", "benign: find_exit reorder disjuncts", FS, """            if ((!final)
+                || fsg_link_to_state(fl) == fsg_model_final_state(fsg)) {""", """            if (fsg_model_final_state(fsg) == fsg_link_to_state(fl) || !final) {""", kind="benign")
